@@ -55,7 +55,7 @@ P3 = {
          "runtime-checked round-trip contract on the real generated classes (bounded stand-in for the contract-based proof)"),
  "C14": ("exploration", "BOUNDED stand-in (not proved): ProtocolEnumMeta.__call__ is six lines delegating to CPython's EnumMeta.__call__ / int.__new__, whose behaviour a VC could only assume; its runtime contract (the statement, clause by clause) is evaluated on hand-written and generated enums x integers under both installed interpreters",
          "runtime-checked contract on the real ProtocolEnumMeta.__call__ under CPython 3.11 and 3.12 (bounded stand-in)"),
- "C17": ("exploration", "PROVED leaf guards and per-step flag threading + BOUNDED composition: 21 generator functions under contract and discharged (the eight FieldCodeGenerator._validate_* as `raises <=> RULE`, _check_optional_field, _generate_break, _make_packet_suffix, _create_type_with_specified_length; generate_instruction, _generate_field/_array/_length and SwitchCodeGenerator.generate_case as one-directional must_raise contracts with opaque calls; placement transfer contracts on generate_instruction, _generate_field/_array/_length, _generate_dummy, _generate_chunked, _generate_switch, generate_case, generate_case_data_type; the frame assumption of the opaque calls is scanned syntactically on every run); that the flags an instruction sees are those of its syntactic position is the composition of these steps (meta-step), and 'wherever it occurs' as a whole is bounded: the real generator is run on the statement's rule catalogue x nesting positions x files and on every enumerated instruction sequence the independent rule reader xmlsem.wellformed finds ill-formed; it must raise and write no module for the offending class",
+ "C17": ("exploration", "PROVED leaf guards and per-step flag threading + BOUNDED composition: 23 generator functions under contract and discharged (the eight FieldCodeGenerator._validate_* as `raises <=> RULE`, _check_optional_field, _generate_break, _make_packet_suffix, _create_type_with_specified_length; generate_instruction, _generate_field/_array/_length, SwitchCodeGenerator.generate_case and TypeFactory.get_type as one-directional must_raise contracts with opaque calls; FieldCodeGenerator._get_type_length; placement transfer contracts on generate_instruction, _generate_field/_array/_length, _generate_dummy, _generate_chunked, _generate_switch, generate_case, generate_case_data_type; the frame assumption of the opaque calls is scanned syntactically on every run); that the flags an instruction sees are those of its syntactic position is the composition of these steps (meta-step), and 'wherever it occurs' as a whole is bounded: the real generator is run on the statement's rule catalogue x nesting positions x files and on every enumerated instruction sequence the independent rule reader xmlsem.wellformed finds ill-formed; it must raise and write no module for the offending class",
          "runtime post-condition of the real generator over a rule-violation catalogue (bounded stand-in)"),
  "C18": ("exploration", "BOUNDED stand-in (not proved): generation over valid trees x hash seeds x shuffled directory enumeration x both interpreters x pre-populated output must be byte-identical, complete and importable with every declared type exported; the code carrying this (set iteration, sorting, list surgery during iteration, os.walk, file writes) is outside the VC generator's fragment",
          "runtime-checked contracts on ProtocolCodeGenerator.generate / CodeBlock.to_string outputs (bounded stand-in)"),
